@@ -171,7 +171,7 @@ func (a *Action) Exec(bs map[string]interface{}) ExecResult {
 			return ExecResult{Outcome: "fail"}
 		case "retnull":
 			return ExecResult{Outcome: "null", Emitted: out}
-		case "retbad":
+		case "retbad", "retarr", "retfn", "retdate":
 			return ExecResult{Outcome: "bad"}
 		case "tick":
 		}
